@@ -139,12 +139,11 @@ class MediaList(cssutils.util._NewListBase):
         # must be at least one value!
         if not atleastone:
             ok = False
-            self._wellformed = ok
             self._log.error('MediaQuery: No content.', error=xml.dom.SyntaxErr)
 
-        self._wellformed = ok
-
         if ok:
+            # else nothing changes
+            self._wellformed = True
             mediaTypes = []
             finalseq = cssutils.util.Seq(readonly=False)
             commentseqonly = cssutils.util.Seq(readonly=False)
